@@ -24,7 +24,8 @@ pub fn model_from_case(case: &Value) -> Value {
 
 fn u(v: &Value) -> u32 {
     let x = v.as_i64().unwrap();
-    if x < 0 { !0 } else { x as u32 }
+    // -1: none;  2147483647: the stand-in for u32::MAX (extreme positions)
+    if x < 0 || x == 2147483647 { !0 } else { x as u32 }
 }
 pub fn raw_tokens(m: &Value) -> Vec<RawToken> {
     m["toks"].as_array().unwrap().iter().map(|t| RawToken {
